@@ -88,9 +88,11 @@ fn http_can_carry(name: &str, value: &str) -> bool {
 }
 
 const NAMES: [&str; 8] = ["X-Name", "x-api-key", "X_Custom.Header", "A", "Trace-Id1", "X~t!#$%&'*+^`|", "UPPER-CASE", "x-request-id"];
-const VALUES: [&str; 14] = [
+const VALUES: [&str; 17] = [
     "Value", "v1:v2", "a: b :c", "", "multiple words here", "ünïcode ✓", "x=y; z", ":", "::lead", "tab\tinside", "Bearer abc.def", "trailing:",
     "\"quoted\"", "nbsp\u{a0}inside",
+    // list-valued fields: the comma belongs to the value
+    "alpha,beta", "a.example:8080, b.example:8080", "gzip, deflate;q=0.5,",
 ];
 const PADS: [&str; 9] = ["", "", " ", "\t", "  ", " \t ", "\u{a0}", "\u{3000}", "\u{2003}\u{85}"];
 const INNER_WS: [&str; 7] = [" ", "\t", "\u{a0}", "\u{2009}", "\u{3000}", "\u{b}", "  "];
@@ -189,7 +191,7 @@ const J_STRINGS: [&str; 12] = [
     "", "plain", "with \"quotes\" and \\ backslash", "line\nbreak\ttab\r", "ctl \u{1}\u{8}\u{c}\u{1f} \u{7f}", "ünïcödé ✓ 日本語", "emoji 🦀", "/slash/",
     "\u{2028}\u{2029}", "<html>&amp;</html>", "null", " spaced ",
 ];
-const J_KEYS: [&str; 12] = ["data", "a", "b", "ab", "aB", "B", "zeta", "__schema", "ünï", "", "a b", "10"];
+const J_KEYS: [&str; 15] = ["data", "a", "b", "ab", "aB", "B", "zeta", "__schema", "ünï", "", "a b", "10", "errors", "extensions", "errors"];
 const J_NUMS: [&str; 16] = [
     "0", "-1", "42", "9223372036854775807", "-9223372036854775808", "18446744073709551615", "1.5", "-0.0", "1e3", "1E-7", "3.141592653589793", "1e21",
     "123456789012345680000", "0.1", "2.50", "-1.0e+2",
@@ -287,6 +289,8 @@ fn gen_schema_beh(rng: &mut Rng) -> Beh {
         json_wrapped: rng.chance(60),
         json_is_one_of: true,
         json_directives: rng.chance(70),
+        // a full response with `errors: null` and `extensions` next to `data`
+        json_response_members: rng.chance(40),
         ..RenderKnobs::default()
     };
     let v = schema.to_json(&knobs);
